@@ -55,6 +55,7 @@ func (e *fnEnc) runTop() {
 	for _, k := range vc.sortedKeyNames() {
 		e.cur[k] = vc.decl("H0!"+k, vc.keys[k].Sort)
 	}
+	vc.assume(fmt.Sprintf("(>= %s 0)", e.heap(clockKey)))
 	// parameters
 	var ptrParams []string
 	for _, p := range e.fn.Params {
@@ -72,7 +73,7 @@ func (e *fnEnc) runTop() {
 		vc.assume("(> " + n + " 0)")
 		ptrParams = append(ptrParams, n)
 	}
-	e.allocs = ptrParams
+	_ = ptrParams
 	e.entryHeap = copyMap(e.cur)
 	// preconditions
 	if c := e.contract; c != nil {
@@ -246,6 +247,22 @@ func (e *fnEnc) block(b *ssa.BasicBlock, entryGuard string) {
 					e.havoc(k)
 				}
 			}
+			// allocation clock: havocked but never behind any entry edge
+			hc := vc.fresh("clockh", "Int")
+			for i, p := range preds {
+				pc := e.heapOut[p][clockKey.Name]
+				if pc != "" {
+					vc.assume(sImp(edges[i], fmt.Sprintf("(>= %s %s)", hc, pc)))
+				}
+			}
+			e.cur[clockKey.Name] = hc
+			for _, in := range b.Instrs {
+				phi, ok := in.(*ssa.Phi)
+				if !ok {
+					break
+				}
+				vc.assume(sImp(r, e.typeFacts(e.val[phi], phi.Type(), 1)))
+			}
 			e.headHeap[b] = copyMap(e.cur)
 			e.assumeInvariants(li)
 		}
@@ -314,6 +331,11 @@ func (e *fnEnc) loopEnv(li *loopInfo, from *ssa.BasicBlock, heap map[string]stri
 
 // varAt finds the SSA value of source variable name at the entry of block at.
 func (e *fnEnc) varAt(name string, at, from *ssa.BasicBlock, heap map[string]string) (TV, bool) {
+	return e.varAtIdx(name, at, -1, from, heap)
+}
+
+// varAtIdx resolves a source variable just before instruction index upto of block at (upto < 0: at block entry, after the phis).
+func (e *fnEnc) varAtIdx(name string, at *ssa.BasicBlock, upto int, from *ssa.BasicBlock, heap map[string]string) (TV, bool) {
 	for blk := at; blk != nil; blk = blk.Idom() {
 		instrs := blk.Instrs
 		end := len(instrs)
@@ -324,6 +346,9 @@ func (e *fnEnc) varAt(name string, at, from *ssa.BasicBlock, heap map[string]str
 					break
 				}
 				end++
+			}
+			if upto >= 0 {
+				end = upto
 			}
 		}
 		for i := end - 1; i >= 0; i-- {
@@ -383,6 +408,19 @@ func (e *fnEnc) assumeInvariants(li *loopInfo) {
 			e.fail("loop %d invariant %q: %v", li.ordinal, cl.Src, err)
 		}
 		e.vc.assume(sImp(e.reach[li.head], f))
+	}
+	if c := e.contract; c != nil {
+		for _, cl := range c.Assumes {
+			if cl.Loop != li.ordinal {
+				continue
+			}
+			f, err := env.Bool(cl.Expr)
+			if err != nil {
+				e.fail("loop %d assume %q: %v", li.ordinal, cl.Src, err)
+			}
+			e.vc.assume(sImp(e.reach[li.head], f))
+			e.vc.note("ASSUMED (not proved) at loop %d of %s: %s", li.ordinal, FuncKey(e.fn), cl.Src)
+		}
 	}
 	for _, cl := range decs {
 		tv, err := env.Term(cl.Expr)
